@@ -13,10 +13,10 @@ from core.common import f2b, b2f, close
 from core import impl as I
 
 ID = "C06"
-LEAN_MODULES = ["AcnProofs.C06"]
+LEAN_MODULES = ["AcnProofs.C06", "AcnProofs.Lemmas.FeasFindings"]
 DRIVER = "drv_C06"
 REQUIRED_THEOREMS = [
-    "Acn.C06.net_feasible_iff", "Acn.C06.net_infeasible_of_neg_bound", "Acn.C06.net_feasible_iff_fin",
+    "Acn.C06.net_feasible_iff", "Acn.C06.net_infeasible_of_neg_bound", "Acn.C06.net_feasible_iff_fin", "Acn.C06.net_feasible_iff_phasor",
     "Acn.C06.three_agree", "Acn.C06.linear_modes_agree", "Acn.C06.iface_rejects_ragged",
     "Acn.C06.three_agree_entry", "Acn.C06.no_constraints_feasible", "Acn.C06.infra_of_unconstrained_ok",
     "Acn.C06.linear_conservative", "Acn.C06.linear_conservative_entry", "Acn.C06.gen_tolerances",
@@ -125,9 +125,10 @@ def _matrix(case):
     return [[float(c["coeffs"].get(i, 0.0)) for i in ids] for c in case["constraints"]]
 
 
-def _tols(case):
-    """tolerances in force for the calls of this case (what `None` defaults to)."""
-    nvt, nrt = case["net_tol"] if case.get("net_tol") else (DEF_VT, DEF_RT)
+def _tols(case, net_tol=None):
+    """tolerances in force for the calls of this case (what `None` defaults to); `net_tol` = the
+    network's own public attributes when they have been observed."""
+    nvt, nrt = net_tol if net_tol else case["net_tol"] if case.get("net_tol") else (DEF_VT, DEF_RT)
     cvt, crt = case.get("call_tol") or (None, None)
     return (nvt if cvt is None else cvt), (nrt if crt is None else crt)
 
@@ -229,6 +230,19 @@ def _gen_case(rng, exact=False):
         # the others get either a comfortable or a random limit
     case["k"] = k
     case["target"] = target
+    # arguments for constraint_current(constraints=…, time_indices=…)
+    if cons and rng.random() < 0.6:
+        names = [c["name"] for c in cons]
+        pick = [n for n in names if rng.random() < 0.6]
+        rng.shuffle(pick)
+        if rng.random() < 0.15:
+            pick.append("no-such-constraint")
+        ts = None
+        if T > 0 and rng.random() < 0.7:
+            ts = [rng.randrange(T) for _ in range(rng.randint(0, 4))]
+            if rng.random() < 0.05:
+                ts.append(T + rng.randint(0, 2))
+        case["sel"] = {"names": pick if rng.random() < 0.8 else None, "ts": ts}
     sched = {}
     order = list(included)
     rng.shuffle(order)
@@ -274,8 +288,39 @@ def corpus():
     ]
 
 
+def _small_scope(rng, n):
+    """thorough tier: systematic small scope — every sign pattern in {-1,0,1}^3 as the single row over
+    the three site phases, every schedule in {0,8,16}^3 (one period), the limit placed at the
+    phase-aware or the linear magnitude ± one tolerance (sampled down to n cases)."""
+    site = [{"id": "A", "V": 208, "phase": 30}, {"id": "B", "V": 208, "phase": -90}, {"id": "C", "V": 208, "phase": 150}]
+    out = []
+    vals = [0.0, 8.0, 16.0]
+    for a in range(27):
+        row = [float((a // 3 ** j) % 3 - 1) for j in range(3)]
+        if not any(row):
+            continue
+        for b in range(1, 27):
+            x = [vals[(b // 3 ** j) % 3] for j in range(3)]
+            z = abs(sum(r * v * _phasor(s["phase"]) for r, v, s in zip(row, x, site)))
+            lin = sum(abs(r) * v for r, v in zip(row, x))
+            for base, tg in ((z, "phasor"), (lin, "linear")):
+                for k in (-1.0, 1.0):
+                    lim = base - DEF_VT + k * DEF_VT
+                    if lim <= 0:
+                        continue
+                    out.append({"stations": site, "constraints": [{"name": "r", "coeffs": {s["id"]: r for s, r in zip(site, row) if r},
+                                                                   "limit": lim}],
+                                "net_tol": None, "call_tol": None, "sched": {s["id"]: [v] for s, v in zip(site, x)},
+                                "exact": False, "k": k, "angles": "site", "shape": "small-scope", "target": tg})
+    rng.shuffle(out)
+    return out[:n]
+
+
 def generate(rng, n, tier):
-    return [_gen_case(rng, exact=(i % 5 == 4)) for i in range(n)]
+    out = []
+    if tier == "thorough":
+        out = _small_scope(rng, n // 4)
+    return out + [_gen_case(rng, exact=(i % 5 == 4)) for i in range(n - len(out))]
 
 
 # ------------------------------------------------------------------ implementation
@@ -331,7 +376,7 @@ def run_impl(case):
     net, iface = _build(case)
     ids = [s["id"] for s in case["stations"]]
     cvt, crt = case.get("call_tol") or (None, None)
-    vt, rt = _tols(case)
+    vt, rt = _tols(case, [float(net.violation_tolerance), float(net.relative_tolerance)])
     obs = {"station_ids": list(net.station_ids),
            "matrix": None if net.constraint_matrix is None else [[float(x) for x in r] for r in net.constraint_matrix],
            "limits": [float(x) for x in net.magnitudes], "cids": list(net.constraint_index),
@@ -388,13 +433,23 @@ def run_impl(case):
                 obs["lin_imag_zero"] = bool(np.all(zl.imag == 0))
             except Exception as ex:  # noqa
                 obs["cc_err"] = type(ex).__name__
+            sel = case.get("sel")
+            if sel:
+                for key, lin in (("sel_sq", False), ("sel_lin", True)):
+                    try:
+                        zz = net.constraint_current(S, constraints=sel["names"], time_indices=sel["ts"], linear=lin)
+                        obs[key] = [[float(v.real) if lin else float(v.real * v.real + v.imag * v.imag) for v in r]
+                                    for r in zz]
+                    except Exception as ex:  # noqa
+                        obs[key] = "err:" + type(ex).__name__
         if info is not None:
             obs["alg"] = _call(lambda: icf(S, info, False, vt, rt))
             obs["alg_lin"] = _call(lambda: icf(S, info, True, vt, rt))
             if T == 1:
                 obs["alg1"] = _call(lambda: icf(S[:, 0], info, False, vt, rt))
                 obs["alg1_lin"] = _call(lambda: icf(S[:, 0], info, True, vt, rt))
-            if (vt, rt) == (DEF_VT, DEF_RT):
+            if cvt is None and crt is None and not case.get("net_tol"):
+                # default network, default call: the algorithm side's own defaults must agree
                 obs["alg_default"] = _call(lambda: icf(S, info))
     return obs
 
@@ -414,12 +469,14 @@ def model_request(case, obs):
         "c_net": [f2b(x) for x in obs["c_net"]], "s_net": [f2b(x) for x in obs["s_net"]],
         "c_alg": [f2b(x) for x in obs["c_alg"]], "s_alg": [f2b(x) for x in obs["s_alg"]],
         "voltages": [f2b(s["V"]) for s in case["stations"]],
-        "net_vt": f2b(case["net_tol"][0] if case.get("net_tol") else DEF_VT),
-        "net_rt": f2b(case["net_tol"][1] if case.get("net_tol") else DEF_RT),
+        # null = the constructor's defaults, which the driver takes from the regenerated Gen/Consts.lean
+        "net_vt": f2b(case["net_tol"][0]) if case.get("net_tol") else None,
+        "net_rt": f2b(case["net_tol"][1]) if case.get("net_tol") else None,
         "vt": None if cvt is None else f2b(cvt), "rt": None if crt is None else f2b(crt),
         "sched": [[k, [f2b(x) for x in v]] for k, v in case["sched"].items()],
         "S": [[f2b(x) for x in r] for r in obs["S"]] if "S" in obs else None,
         "x": [f2b(r[0]) for r in obs["S"]] if "S" in obs and obs["S"] and len(obs["S"][0]) == 1 else None,
+        "sel": case.get("sel") if "sel_sq" in obs else None,
     }
     return req
 
@@ -448,8 +505,12 @@ def compare(case, obs, model):
         md = [[b2f(x) for x in r] for r in model["dense"]]
         if md != obs["S"]:
             out.append(f"densify: harness={obs['S']} model={md}")
-    for k in ("sq", "lin"):
-        if k in obs:
+    for k in ("sel_sq", "sel_lin"):
+        if k in obs and k in model and (isinstance(obs[k], str) or isinstance(model[k], str)):
+            if obs[k] != ("err:" + model[k] if isinstance(model[k], str) else model[k]):
+                out.append(f"{k}: impl={obs[k]} model={model[k]}")
+    for k in ("sq", "lin", "sel_sq", "sel_lin"):
+        if k in obs and k in model and not isinstance(obs[k], str) and not isinstance(model[k], str):
             mm = [[b2f(x) for x in r] for r in model.get(k, [])]
             if len(mm) != len(obs[k]) or any(len(a) != len(b) for a, b in zip(mm, obs[k])):
                 out.append(f"{k}: shape impl={np.shape(obs[k])} model={np.shape(mm)}")
@@ -463,12 +524,12 @@ def compare(case, obs, model):
 
 # ------------------------------------------------------------------ property oracle
 
-def _independent(case, S):
+def _independent(case, S, net_tol=None):
     """Exact (Fractions, angle-0 dyadic stream) or complex-double evaluation, independent of the model
     and of numpy: per constraint/period the phase-aware magnitude, the documented linear aggregate
     Σ|a_j|·S_jt, the sign-blind |Σ a_j·S_jt|, and the bound limit + max(vt, rt·limit)."""
     M = _matrix(case)
-    vt, rt = _tols(case)
+    vt, rt = _tols(case, net_tol)
     exact = bool(case.get("exact")) and all(s["phase"] == 0 for s in case["stations"])
     T = len(S[0]) if S else 0
     rows = []
@@ -532,6 +593,16 @@ def _norm_time_verdict(rows, exact):
 
 
 def oracle(case, obs):
+    # de-duplicate by kind, keep the first detail
+    seen, out = set(), []
+    for f in _oracle(case, obs):
+        if f["kind"] not in seen:
+            seen.add(f["kind"])
+            out.append(f)
+    return out
+
+
+def _oracle(case, obs):
     fails = []
 
     def fail(kind, detail):
@@ -597,7 +668,7 @@ def oracle(case, obs):
             if k in obs and obs[k] is False:
                 fail("unconstrained_not_feasible", f"{k}=False on a network without constraints")
         return fails
-    rows, exact, T = _independent(case, S)
+    rows, exact, T = _independent(case, S, obs.get("net_tol"))
     exp = _verdict(rows, "mag", exact)
     doc = _verdict(rows, "doc", exact)
     blind = _verdict(rows, "blind", exact)
@@ -614,6 +685,23 @@ def oracle(case, obs):
             for t, v in enumerate(r["mag"]):
                 if not close(obs["absz"][i][t], v):
                     fail("constraint_current_wrong", f"|constraint_current|[{i}][{t}]={obs['absz'][i][t]} expected {v}")
+    sel = case.get("sel")
+    if sel and "sel_sq" in obs and "absz" in obs:
+        names = [c["name"] for c in cons]
+        ri = [i for i, n in enumerate(names) if sel["names"] is None or n in sel["names"]]
+        ti = list(range(T)) if sel["ts"] is None else sel["ts"]
+        if any(t >= T for t in ti):
+            if obs["sel_sq"] != "err:IndexError":
+                fail("constraint_current_selection_wrong", f"time_indices {ti} beyond {T} periods gave {obs['sel_sq']}")
+        elif isinstance(obs["sel_sq"], str):
+            fail("feasibility_check_exception", f"constraint_current(constraints={sel['names']}, time_indices={ti}) raised {obs['sel_sq']}")
+        else:
+            want_sq = [[float(rows[i]["mag"][t]) ** 2 for t in ti] for i in ri]
+            got = obs["sel_sq"]
+            if len(got) != len(want_sq) or any(len(a) != len(b) for a, b in zip(got, want_sq)) or \
+                    any(not close(a, b) for ra, rb in zip(got, want_sq) for a, b in zip(ra, rb)):
+                fail("constraint_current_selection_wrong",
+                     f"constraint_current(constraints={sel['names']}, time_indices={sel['ts']})² = {got}, expected rows {ri} x periods {ti} of the full table: {want_sq}")
     # 6. linear mode: documented aggregate Σ|a_j| S_jt, agreement, conservativeness
     sign_blind = False
     if "lin" in obs:
@@ -658,13 +746,7 @@ def oracle(case, obs):
                          f"{k} accepts a non-negative schedule that the phase-aware check rejects")
                 else:
                     fail("linear_not_conservative", f"{k} accepts a non-negative schedule that the phase-aware check rejects")
-    # de-duplicate by kind, keep the first detail
-    seen, out = set(), []
-    for f in fails:
-        if f["kind"] not in seen:
-            seen.add(f["kind"])
-            out.append(f)
-    return out
+    return fails
 
 
 def nontrivial(case, obs):
@@ -699,7 +781,7 @@ def features(case, obs):
     out.append("net_tol:" + ("default" if not case.get("net_tol") else "custom"))
     ct = case.get("call_tol") or (None, None)
     out.append("call_tol:" + ("none" if ct[0] is None and ct[1] is None else "partial" if None in ct else "both"))
-    vt, rt = _tols(case)
+    vt, rt = _tols(case, obs.get("net_tol"))
     for c in case["constraints"]:
         out.append("tol:relative" if rt * c["limit"] > vt else "tol:absolute")
         if c["limit"] + max(vt, rt * c["limit"]) < 0:
